@@ -162,6 +162,19 @@ def parseQ (s : String) : Option (Nat × A) :=
     pure (i, a)
   | _ => none
 
+/-- parse `<6 bits>:<lt|eq|gt|none>` -/
+def parseCmp (s : String) : Option Oracle.CmpObs :=
+  match s.splitOn ":" with
+  | [bits, pc] =>
+    match bits.toList.map (· == '1'), pc with
+    | [e, n, l, le, g, ge], pcs =>
+      let p : Option (Option Ordering) :=
+        if pcs == "lt" then some (some .lt) else if pcs == "eq" then some (some .eq)
+        else if pcs == "gt" then some (some .gt) else if pcs == "none" then some none else none
+      p.map (fun p => { eq := e, ne := n, lt := l, le := le, gt := g, ge := ge, pc := p })
+    | _, _ => none
+  | _ => none
+
 def step (line impl : String) : String × Verdict :=
   let ws := line.splitOn " "
   let bad := ("bad-op", Verdict.skip "bad-op")
@@ -199,7 +212,48 @@ def step (line impl : String) : String × Verdict :=
     | some T, some i, some a, some j, some b =>
       let x : Q A Nat := ⟨a, i⟩
       let y : Q A Nat := ⟨b, j⟩
-      (cmpGroup R T x y ++ "|" ++ cmpGroup R T y x, .ok)
+      let out := cmpGroup R T x y ++ "|" ++ cmpGroup R T y x
+      let v : Verdict :=
+        match impl.splitOn "|" with
+        | [g1, g2] =>
+          match parseCmp g1, parseCmp g2 with
+          | some o1, some o2 =>
+            if T.kind == .withRef then
+              let si := R.val (T.scaleOf R i)
+              let sj := R.val (T.scaleOf R j)
+              let mag (s v : Option Rat) : Option Rat := do
+                let s ← s
+                let v ← v
+                pure (s * v)
+              let mx := mag si (R.val a)
+              let my := mag sj (R.val b)
+              let margin (sFrom sTo : Option Rat) (v : Option Rat) : Option Rat := do
+                let s1 ← sFrom
+                let s2 ← sTo
+                let v ← v
+                if Oracle.convSafe M s1 s2 v then pure (Oracle.convBound M s1 s2 v) else none
+              let ownAB := Oracle.CmpObs.ofPcmp (R.beq a b) (R.pcmp a b)
+              let ownBA := Oracle.CmpObs.ofPcmp (R.beq b a) (R.pcmp b a)
+              let nanFree := (R.pcmp a a).isSome && (R.pcmp b b).isSome
+              -- "the rounding error of one conversion": whichever operand is converted
+              let mg : Option Rat := do
+                let m1 ← margin sj si (R.val b)
+                let m2 ← margin si sj (R.val a)
+                pure (if m1 < m2 then m2 else m1)
+              ((Oracle.c02one (i == j) ownAB o1 mx my mg).and
+                (Oracle.c02one (i == j) ownBA o2 my mx mg)).and
+                (if nanFree then Oracle.c02symm o1 o2 else .ok)
+            else
+              -- C10: no reference unit
+              let exp1 := if i == j then Oracle.CmpObs.ofPcmp (R.beq a b) (R.pcmp a b)
+                          else Oracle.CmpObs.ofPcmp false none
+              let exp2 := if i == j then Oracle.CmpObs.ofPcmp (R.beq b a) (R.pcmp b a)
+                          else Oracle.CmpObs.ofPcmp false none
+              check (o1 == exp1 && o2 == exp2)
+                "values without reference unit: equal only with same unit and amount, unordered across units"
+          | _, _ => if impl.contains "panic:" then .skip "panic" else .skip "unparsed impl output"
+        | _ => .skip "no impl output"
+      (out, v)
     | _, _, _, _, _ => bad
   | [op, t, i, a, j, b] =>
     match W.find t, i.toNat?, C.parse a, j.toNat?, C.parse b with
@@ -207,12 +261,58 @@ def step (line impl : String) : String × Verdict :=
       let x : Q A Nat := ⟨a, i⟩
       let y : Q A Nat := ⟨b, j⟩
       let wr := T.kind == .withRef
-      if op == "add" then
-        (resStr (qStr C) (if wr then hrAdd R (T.qt R) x y else nrAdd R x y), .ok)
-      else if op == "sub" then
-        (resStr (qStr C) (if wr then hrSub R (T.qt R) x y else nrSub R x y), .ok)
+      let s1 := R.val (T.scaleOf R i)
+      let s2 := R.val (T.scaleOf R j)
+      if op == "add" || op == "sub" then
+        let isSub := op == "sub"
+        let r := if wr then (if isSub then hrSub R (T.qt R) x y else hrAdd R (T.qt R) x y)
+                 else (if isSub then nrSub R x y else nrAdd R x y)
+        let out := resStr (qStr C) r
+        let own := if isSub then R.sub a b else R.add a b
+        let v : Verdict :=
+          if !wr then
+            -- C10
+            if i != j then check (impl == "panic:unit-mismatch") "different units of a type without reference unit must panic"
+            else check (impl == resStr (qStr C) (own.map (fun z => (⟨z, i⟩ : Q A Nat))))
+              "same-unit result differs from the amount type's own operator"
+          else match parseQ C impl with
+            | some (u', z) =>
+              match s1, s2 with
+              | some s1, some s2 =>
+                let sameOwn := match own with
+                  | .ok o => R.same z o
+                  | .error _ => false
+                Oracle.c03addsub M isSub i j u' s1 s2 (R.val a) (R.val b) sameOwn (R.val z)
+              | _, _ => .skip "non-finite scale"
+            | none => if impl.startsWith "panic:" then
+                        (if i == j then check (impl == resStr (qStr C) (own.map (fun z => (⟨z, i⟩ : Q A Nat))))
+                            "same-unit result differs from the amount type's own operator"
+                         else .skip "panic")
+                      else .skip "unparsed impl output"
+        (out, v)
       else if op == "div" then
-        (resStr C.render (if wr then hrDiv R (T.qt R) x y else nrDiv R x y), .ok)
+        let r := if wr then hrDiv R (T.qt R) x y else nrDiv R x y
+        let out := resStr C.render r
+        let own := R.div a b
+        let v : Verdict :=
+          if !wr then
+            if i != j then check (impl == "panic:unit-mismatch") "different units of a type without reference unit must panic"
+            else check (impl == resStr C.render own) "same-unit quotient differs from the amount type's own operator"
+          else match C.parse impl with
+            | some z =>
+              match s1, s2 with
+              | some s1, some s2 =>
+                let sameOwn := match own with
+                  | .ok o => R.same z o
+                  | .error _ => false
+                Oracle.c03div M i j s1 s2 (R.val a) (R.val b) sameOwn (R.val z)
+              | _, _ => .skip "non-finite scale"
+            | none => if impl.startsWith "panic:" then
+                        (if i == j then check (impl == resStr C.render own)
+                            "same-unit quotient differs from the amount type's own operator"
+                         else .skip "panic")
+                      else .skip "unparsed impl output"
+        (out, v)
       else bad
     | _, _, _, _, _ => bad
   | ["new", t, i, a] =>
